@@ -272,6 +272,15 @@ def zoo_db(path, page_size, rnd, n=120):
     # a composite PRIMARY KEY of a rowid table whose first column is INTEGER (no rowid alias: the values are stored)
     con.execute("CREATE TABLE z18(shop INTEGER, item TEXT, qty, PRIMARY KEY(shop, item))")
     con.execute("CREATE TABLE z19(n INTEGER, m INTEGER, PRIMARY KEY(n DESC, m)) WITHOUT ROWID")
+    # integers beyond 2^53 next to the reals within rounding distance of them, in one indexed column and in a key
+    con.execute("CREATE TABLE z20(n, tag)")
+    con.execute("CREATE INDEX z20n ON z20(n)")
+    con.execute("CREATE TABLE z21(n PRIMARY KEY, tag) WITHOUT ROWID")
+    for j, v_ in enumerate([2 ** 53 - 1, 2 ** 53, 2 ** 53 + 1, 2 ** 53 + 2, float(2 ** 53), float(2 ** 53 + 2), 2 ** 60 - 1, 2 ** 60, 2 ** 60 + 1, float(2 ** 60),
+                            2 ** 62 + 1, float(2 ** 62), 2 ** 63 - 1, 2 ** 63 - 512, float(2 ** 63), -(2 ** 63), -float(2 ** 63), -(2 ** 53) - 1, -float(2 ** 53),
+                            3, 3.0, 3.5, -3, -3.5, 0, -0.5, 0.5]):
+        con.execute("INSERT INTO z20 VALUES(?,?)", (v_, "t%d" % j))
+        con.execute("INSERT OR IGNORE INTO z21 VALUES(?,?)", (v_, "t%d" % j))
     # a table-level PRIMARY KEY that repeats an earlier UNIQUE constraint, with another UNIQUE after it
     con.execute("CREATE TABLE z17(a TEXT UNIQUE, b TEXT, c, PRIMARY KEY(a), UNIQUE(b))")
     npool = TEXTPOOL[:12] + ["z", "Z", "zz", "ZZ", "Zz", "azure", "AZURE", "cRaZy", "crazy", "[", "`", "@", "{"]
